@@ -118,3 +118,45 @@ def rule_long_constants(run, prog, rid="R-11.8"):
     run.ob(rid, f"{fn.key}::length-independent", bad is None,
            (f"the constant {bad[0]} gives (kind, length of the token text, offset reached, diagnostics) = {bad[1]} (result {bad[2]!r}): "
             f"a valid constant is cut into several tokens") if bad else "", fn.node, evaluations=n)
+
+
+def rule_literal_context(run, prog, rid="R-11.9"):
+    run.rule(rid, "a literal is lexed the same whatever word precedes it: get_next_token, interpreted on `<word> \"say \\\\\"hi\\\\\"\"` and "
+             "`<word> '\\\\''` for every identifier-like word the lexer's own source mentions (and include / define / x), gives the "
+             "word, a blank, and one STRING / CHAR_CONST spanning the literal, without diagnostic", floor=1)
+    import ast as _ast
+    import re as _re
+    from ..model import walk_fn
+    words = {"x", "include", "define", "import", "L", "u8"}
+    for fn in prog.fns:
+        if fn.mod.rel.startswith("lexer/"):
+            for n in walk_fn(fn.node):
+                if isinstance(n, _ast.Constant) and isinstance(n.value, str) and _re.fullmatch(r"[A-Za-z_]\w{1,15}", n.value):
+                    words.add(n.value)
+    gnt = prog.method("Lexer", "get_next_token")
+    run.require(gnt is not None, "anchor vanished: Lexer.get_next_token")
+    try:
+        kw = fold_name("keywords", prog.mod("lexer/dictionary.py"))
+    except Unknown:
+        kw = {}
+    bad, n = None, 0
+    try:
+        for w in sorted(words):
+            for lit, kind in (('"say \\"hi\\""', "STRING"), ("'\\''", "CHAR_CONST")):
+                if w in ("L", "u8", "u", "U"):
+                    src = w + "x " + lit + ";"           # not glued: a prefix would belong to the literal
+                else:
+                    src = w + " " + lit + ";"
+                n += 1
+                sim = LexerSim(prog, src)
+                toks = []
+                for _ in range(3):
+                    out = sim.call("get_next_token")
+                    toks.append((getattr(out.value, "type", None), getattr(out.value, "value", None)) if out.kind == "ok" else (repr(out), None))
+                if (toks[2] != (kind, lit) or sim.error_names()) and bad is None:
+                    bad = (src, toks, sim.error_names())
+    except Unsupported as e:
+        raise Undecided(f"Lexer.get_next_token is outside the evaluable subset: {e}")
+    run.ob(rid, f"{gnt.key}::literal-after-any-word", bad is None,
+           (f"{bad[0]!r} is tokenized as {bad[1]} with the diagnostics {bad[2]}: the literal is read differently because of the word "
+            f"in front of it") if bad else "", gnt.node, evaluations=n, words=len(words))
